@@ -4,6 +4,7 @@ import (
 	"bytes"
 	"encoding/json"
 	"fmt"
+	"io"
 	"math/rand"
 	"os"
 	"os/exec"
@@ -141,9 +142,19 @@ func leastDictCode(n int64) int {
 
 // readXZ decodes data with the library reader under a configuration.
 func readXZ(data []byte, dictCap int, single bool, bufSize int) (out []byte, err error, panicked any) {
+	return readXZMode(data, dictCap, single, bufSize, "")
+}
+
+// readXZMode is readXZ with the source delivering its data in the given fragmentation mode
+// of fragSource ("one", "small", "half", "dataeof"; "" = a plain bytes.Reader).
+func readXZMode(data []byte, dictCap int, single bool, bufSize int, mode string) (out []byte, err error, panicked any) {
 	var r *xz.Reader
+	var src io.Reader = bytes.NewReader(data)
+	if mode != "" {
+		src = &fragSource{data: data, mode: mode, r: rand.New(rand.NewSource(int64(len(data))))}
+	}
 	if p := safely(func() {
-		r, err = xz.ReaderConfig{DictCap: dictCap, SingleStream: single}.NewReader(bytes.NewReader(data))
+		r, err = xz.ReaderConfig{DictCap: dictCap, SingleStream: single}.NewReader(src)
 	}); p != nil {
 		return nil, nil, p
 	}
